@@ -218,7 +218,8 @@ impl<'v> CheapCallStack<'v> {
     pub(crate) fn to_diagnostic_frames(&self, inlined_frames: InlinedFrames) -> CallStack {
         // The first entry is just the entire module, so skip it
         let mut frames = Vec::new();
-        for frame in &self.stack[1..self.count] {
+        // (there is none when nothing is being evaluated)
+        for frame in self.stack.get(1..self.count).unwrap_or_default() {
             frame.extend_frames(&mut frames);
         }
         inlined_frames.extend_frames(&mut frames);
@@ -227,6 +228,9 @@ impl<'v> CheapCallStack<'v> {
 
     /// List the entries on the stack as values
     pub(crate) fn to_function_values(&self) -> Vec<Value<'v>> {
-        self.stack[1..self.count].map(|x| x.function)
+        self.stack
+            .get(1..self.count)
+            .unwrap_or_default()
+            .map(|x| x.function)
     }
 }
